@@ -506,7 +506,7 @@ struct Extractor : public RecursiveASTVisitor<Extractor> {
     }
     if (auto* ME = dyn_cast<MemberExpr>(S)) {
       // `p->m` evaluated here: a dereference of p at exactly this CFG position
-      if (ME->isArrow()) {
+      if (ME->isArrow() && !isa<CXXThisExpr>(ME->getBase()->IgnoreParenImpCasts())) {
         json::Object o = base("arrow");
         o["e"] = desc(ME->getBase(), 1);
         o["m"] = ME->getMemberDecl()->getNameAsString();
